@@ -333,25 +333,42 @@ func c16Reputation(c *Ctx) {
 	c.whoMayWrite("C16.4", p.Field("protocol/leaderrotation", "RepBased", "prevCommitHead"), "RepBased.prevCommitHead", "(*hs/protocol/leaderrotation.RepBased).GetLeader")
 	// the chooser is built after sorting the weights by id; the pick uses a source seeded by SharedRandomSeed()+view
 	okSort, okSeed := false, false
-	eachInstr(gl, func(in ssa.Instruction) {
-		call, ok := in.(*ssa.Call)
-		if !ok || call.Call.StaticCallee() == nil {
-			return
+	// (the chooser and the draw may sit in private helpers of the package GetLeader was split into: call sites found
+	// from GetLeader, facts and keys in its terms)
+	for _, ds := range deepSites(fl, func(cc *ssa.CallCommon) bool {
+		return cc.StaticCallee() != nil && strings.HasSuffix(cc.StaticCallee().String(), "weightedrand.NewChooser")
+	}, 0) {
+		if afterOf(ds.Facts, func(s string) bool { return strings.HasPrefix(s, "slices.SortFunc[") }) {
+			okSort = true
 		}
-		name := call.Call.StaticCallee().String()
-		if strings.HasSuffix(name, "weightedrand.NewChooser") {
-			if afterOf(fl.At(in), func(s string) bool { return strings.HasPrefix(s, "slices.SortFunc[") }) {
-				// comparator orders by Item ids
-				okSort = true
+	}
+	for _, ds := range deepSites(fl, func(cc *ssa.CallCommon) bool {
+		if cc.StaticCallee() == nil {
+			return false
+		}
+		name := cc.StaticCallee().String()
+		return strings.HasSuffix(name, "weightedrand.Chooser).PickSource") || strings.HasSuffix(name, "weightedrand.Chooser.PickSource")
+	}, 0) {
+		hfl := fl
+		if ds.In != gl {
+			hfl = NewFlow(p, ds.In)
+		}
+		args := ds.Site.Common().Args
+		k := expandedKey(hfl, args[len(args)-1], ds.Site)
+		// in a helper the view is a parameter: the handler's view must be what it is given
+		viewKey := "p1"
+		if ds.In != gl && ds.Via != nil {
+			viewKey = ""
+			for i, a := range ds.Via.Common().Args {
+				if fl.K.Key(a) == "p1" && ds.Via.Common().StaticCallee() == ds.In {
+					viewKey = "p" + itoa(i)
+				}
 			}
 		}
-		if strings.HasSuffix(name, "weightedrand.Chooser).PickSource") || strings.HasSuffix(name, "weightedrand.Chooser.PickSource") {
-			k := expandedKey(fl, call.Call.Args[len(call.Call.Args)-1], in)
-			if strings.HasPrefix(k, "math/rand.New(math/rand.NewSource(((*hs/core.RuntimeConfig).SharedRandomSeed(") && strings.Contains(k, " + p1))") {
-				okSeed = true
-			}
+		if viewKey != "" && strings.HasPrefix(k, "math/rand.New(math/rand.NewSource(((*hs/core.RuntimeConfig).SharedRandomSeed(") && strings.Contains(k, " + "+viewKey+"))") {
+			okSeed = true
 		}
-	})
+	}
 	c.Check(okSort, "C16.4", "RepBased.GetLeader: weights sorted by id before the chooser is built", p.FuncPos(gl), "slices.SortFunc(weights, by id) precedes weightedrand.NewChooser on every path", "weights are not sorted before the draw (iteration order of the voter set would leak into the choice)")
 	c.Check(okSeed, "C16.4", "RepBased.GetLeader: draw seeded by shared seed + view", p.FuncPos(gl), "PickSource(rand.New(rand.NewSource(SharedRandomSeed()+view)))", "unexpected seed")
 }
